@@ -31,15 +31,21 @@ where
     if thorough {
         ls.extend_from_slice(&[255, 256, 257, 1000, 4096]);
     } else {
-        ls.push(257);
+        ls.extend_from_slice(&[255, 256, 257]);
     }
     let nkeys = if thorough { 24 } else { 4 };
+    // quick: four key classes that together hit every ikm / key_info boundary (32, 33, 64, 1000 bytes;
+    // absent, empty, 255, 256, 65535 bytes)
+    let quick_classes = [0usize, 13, 18, 23];
     let reps = if thorough { 6 } else { 1 };
     for k in 0..nkeys {
-        let kc = if k < 24 { k } else { h.rng.below(24) as usize };
+        let kc = if !thorough { quick_classes[k % 4] } else if k < 24 { k } else { h.rng.below(24) as usize };
         let (sk, pk) = keypair_of_class::<CS>(h, kc);
         for &l in &ls {
             if l > 300 && k > 0 {
+                continue;
+            }
+            if !thorough && l > 200 && (k + l) % 4 != 0 {
                 continue;
             }
             for rep in 0..reps {
@@ -209,6 +215,55 @@ where
             let ok = verifyblind::<CS>(h, &pk, &bsig, hdr.as_deref(), Some(&msgs), None, None);
             h.expect(ok.is_ok(), "C02.blind_honest", "blind signature without commitment does not verify", &[h.last()]);
             reject(h, "blind_as_plain", &msgs, hdr.as_deref(), &pk, &bsig);
+        }
+    }
+}
+
+/// larger message counts: the first, a middle and the LAST message, the count and the header stay bound
+pub fn c02_sizes<CS: BbsCiphersuite>(h: &mut H)
+where
+    CS::Expander: for<'a> ExpandMsg<'a>,
+{
+    let ls: Vec<usize> = if h.tier_thorough { vec![15, 16, 17, 31, 32, 33, 63, 64, 65, 127, 128, 129, 255, 256, 257, 300, 1000] } else { vec![16, 31, 32, 33, 64, 129, 256] };
+    let (sk, pk) = rand_keypair::<CS>(h);
+    for l in ls {
+        let msgs = distinct_msgs(h, l);
+        let hdr = rand_header(h);
+        let s = match sign::<CS>(h, &sk, &pk, hdr.as_deref(), Some(&msgs)).ok() { Some(s) => s, None => continue };
+        let sig = s.bbsPlusSignature().clone();
+        h.stat(&format!("C02.sizes.L={}", l));
+        let v = verify::<CS>(h, &pk, &sig, hdr.as_deref(), Some(&msgs));
+        h.expect(v.is_ok(), "C02.sizes_honest", "honest signature over many messages does not verify", &[h.last()]);
+        for i in [0usize, l / 2, l - 2, l - 1] {
+            let mut m = msgs.clone();
+            m[i].push(1);
+            let v = verify::<CS>(h, &pk, &sig, hdr.as_deref(), Some(&m));
+            h.expect(!v.is_ok(), "C02.sizes_msg_edit", &format!("L = {}: signature still verifies after message {} was altered", l, i), &[h.last()]);
+        }
+        let v = verify::<CS>(h, &pk, &sig, hdr.as_deref(), Some(&msgs[..l - 1].to_vec()));
+        h.expect(!v.is_ok(), "C02.sizes_drop_last", &format!("L = {}: signature verifies without the last message", l), &[h.last()]);
+        let mut m = msgs.clone();
+        m.swap(l - 1, l - 2);
+        let v = verify::<CS>(h, &pk, &sig, hdr.as_deref(), Some(&m));
+        h.expect(!v.is_ok(), "C02.sizes_swap_last", &format!("L = {}: signature verifies with the last two messages swapped", l), &[h.last()]);
+        // blind interface at the same total size (signer messages + committed ones)
+        if l <= 64 || h.tier_thorough {
+            let half = l / 2;
+            let (sm, cm) = (msgs[..half].to_vec(), msgs[half..].to_vec());
+            let tape = super::gen_proof::rand_tape(h, cm.len() + 2);
+            if let (Some((c, bf)), _) = { let (o, d) = commit::<CS>(h, Some(&cm), tape); (o.ok(), d) } {
+                if let Some(bs) = blindsign::<CS>(h, &sk, &pk, Some(&c.to_bytes()), hdr.as_deref(), Some(&sm)).ok() {
+                    let bsig = bs.bbsPlusBlindSignature().clone();
+                    let blind = bf.to_bytes();
+                    let v = verifyblind::<CS>(h, &pk, &bsig, hdr.as_deref(), Some(&sm), Some(&cm), Some(&blind));
+                    h.expect(v.is_ok(), "C02.sizes_blind_honest", &format!("honest blind signature over {} + {} messages does not verify", sm.len(), cm.len()), &[h.last()]);
+                    let mut c2 = cm.clone();
+                    let last = c2.len() - 1;
+                    c2[last].push(1);
+                    let v = verifyblind::<CS>(h, &pk, &bsig, hdr.as_deref(), Some(&sm), Some(&c2), Some(&blind));
+                    h.expect(!v.is_ok(), "C02.sizes_blind_edit", "blind signature verifies after the last committed message was altered", &[h.last()]);
+                }
+            }
         }
     }
 }
